@@ -8,3 +8,4 @@ for s in "$@"; do
     [ $rc -ne 0 ] && grep -E '^(VIOLATION|INCONCLUSIVE|MODEL-DRIFT)' /tmp/sweep_$p.out | head -3 | cut -c1-300
   done
 done
+exit 0
